@@ -1089,6 +1089,49 @@ func execC17(raw json.RawMessage, wantLog bool) (out Outcome) {
 					continue
 				}
 				got := h.res.(*sizeRes)
+				if c.Lag {
+					// A replica that has just been added is legitimately behind (sizes are read from
+					// whatever replica is asked, not through the log). What must hold is that every
+					// partition contributes the size of ONE of its loaded replicas: the answer lies
+					// between the sums of the per-partition minima and maxima over the loaded
+					// replicas right now; a node that does not host a partition contributes nothing
+					// to that range, so a zero from it is below the range.
+					type rg struct{ lo, hi uint64 }
+					now := map[uuid.UUID]*rg{}
+					for _, m := range s.nodes {
+						if !m.alive || m.parts == nil {
+							continue
+						}
+						if d := r.datasetOn(m, info.id); d != nil {
+							for _, p := range d.Partitions {
+								if !p.RaftLoaded {
+									continue
+								}
+								x := now[p.Id]
+								if x == nil {
+									now[p.Id] = &rg{uint64(p.Len), uint64(p.Len)}
+								} else {
+									if uint64(p.Len) < x.lo {
+										x.lo = uint64(p.Len)
+									}
+									if uint64(p.Len) > x.hi {
+										x.hi = uint64(p.Len)
+									}
+								}
+							}
+						}
+					}
+					var lo, hi uint64
+					for _, x := range now {
+						lo += x.lo
+						hi += x.hi
+					}
+					if len(now) == len(parts) && (got.n < lo || got.n > hi) {
+						r.viol("len/outside-the-range-of-the-replicas", "SizeInfo on n%d reports %d items; summing one loaded replica per partition gives between %d and %d", n.idx, got.n, lo, hi)
+					}
+					out.Stat("sizes_checked_against_replica_range", 1)
+					continue
+				}
 				// could this node reach a replica of every partition?
 				if got.n != wantN {
 					cls := "wrong-sum"
